@@ -248,7 +248,7 @@ def attrs_doc():
     """Optional attributes in every presence/absence combination: time types (units, scale, offset, epoch, offsetFrom),
     parameters (short/long description), containers (abstract, short/long description, with/without criteria)."""
     import itertools
-    from mc.spec import (Cmp, Container, Doc, IntEnc, FloatEnc, Param, PType, header_entries, header_params, header_ptypes)
+    from mc.spec import (Cmp, Container, CtxCal, Doc, IntEnc, FloatEnc, Param, Poly, PType, header_entries, header_params, header_ptypes)
     pts = list(header_ptypes())
     prs = list(header_params())
     conts = [Container("CCSDSPacket", header_entries(), abstract=True)]
@@ -256,7 +256,9 @@ def attrs_doc():
     for kind in ("AbsoluteTime", "RelativeTime"):
         for unit, scale, offset, epoch, ofrom in itertools.product((None, "s"), (None, 0.25), (None, -3.5), (None, "TAI"), (None, "SRC_SEQ_CTR")):
             n += 1
-            pts.append(PType(f"TT{n}", kind, IntEnc(16) if n % 2 else FloatEnc(32), unit=unit, scale=scale, offset=offset, epoch=epoch, offset_from=ofrom))
+            # every third time type also has context calibrators on its encoding (next to whatever scale / offset say)
+            cc = (CtxCal((Cmp("PKT_APID", "==", "7"),), Poly(((5.0, 0), (2.0, 1)))), CtxCal((Cmp("TYPE", "==", "1"),), Poly(((1.0, 2),)))) if n % 3 == 0 else ()
+            pts.append(PType(f"TT{n}", kind, IntEnc(16, ctx_cals=cc) if n % 2 else FloatEnc(32, ctx_cals=cc), unit=unit, scale=scale, offset=offset, epoch=epoch, offset_from=ofrom))
             prs.append(Param(f"TP{n}", f"TT{n}", short=("short %d" % n) if n % 2 else None, long=("long %d" % n) if n % 3 == 0 else None))
     k = 0
     for abstract, short, long_, crit in itertools.product((False, True), (None, "a short one"), (None, "a long\none"),
